@@ -26,6 +26,10 @@ CLAIMS = {
          "partial: U >= heap payload of the decoded value is checked on the implementation (oracle with real size_of) rather than proved."),
  "C14": ("§4 C14", "Theorems: locality of every decoder program; every strict prefix of an encoding fails; a concatenation of encodings decodes value by value in order; decode_all succeeds exactly when decode succeeds with nothing left. Oracle: every cut point (all for encodings <= 40 bytes), decode_all and decode_all_with_depth_limit on every input.",
          "Bit sequences are outside strict_prefix_fails (it rests on the round-trip theorem)."),
+ "C06": ("§4 C06", "In the model a value is its logical content; the theorems cover the ways a container can present that content to the encoder: a deque's two slices for every split (every ring-buffer state), container kind and element size irrelevant, strictly sorted sets/maps are their own canonical form, holders transparent, the encoder is a function (determinism), bit words depend on the bits only. Oracle on the real containers: seeded histories (VecDeque push/pop/rotate/make_contiguous/reserve/shrink checked after every operation incl. wrapped-by-one states; Vec/String capacity; Box/Rc/Arc/Cow/&& transitions; BTreeMap/BTreeSet insert/remove orders rebuilt reversed and shuffled; LinkedList append/split_off; bit sequences at every offset 0..W+2 of a larger store for six store/order combinations) must encode like a freshly built equal value, repeatably, and like the model's encoding of the content.",
+         "partial: that std's BTreeMap/BTreeSet iterate in key order whatever the insertion history, that VecDeque::as_slices concatenates to the iteration order and that bitvec sub-slicing yields the logical bits are properties of std/bitvec (trusted, exercised by the oracle); spare capacity is invisible in the model by construction."),
+ "C20": ("§4 C20", "The codec model takes no configuration parameter; the cfg-gated code on the data path is modelled separately and proved configuration-independent: Output through io::Write::write_all over any short-write sink appends exactly the bytes (= Vec::extend_from_slice), and the verdict of a decode does not depend on whether errors carry descriptions. The deciding part is the differential: the same deterministic corpus (every registry type: values, their encodings, three mutations each; encode bytes, decode outcome, consumed length, re-encoding, decode_all verdict) is built and run under five feature configurations (std+chain-error, no_std, no_std+chain-error, each with the optional integrations, plus two with bit-vec/bytes/generic-array off), digests compared line by line, and the no_std run is checked against the model.",
+         "partial: a theorem cannot see a cfg gate the model does not know about - only the cross-configuration differential can exhibit one. max-encoded-len and derive stay enabled in all configurations (the shared registry code needs them)."),
  "C13": ("§4 C13", "Theorems by induction on the type descriptor: if mel t = Some m (the formulas of max_encoded_len.rs and of the derive, with saturating arithmetic; compact / encoded_as fields contribute the bound of the type they are encoded as, skipped fields and variants nothing, enums 1 + max) and m did not saturate, no well-formed value encodes to more than m bytes; ConstEncodedLen types encode to exactly m bytes; encoded_fixed_size() = Some s means every value has s bytes; the Compact bound table is sufficient for every width. Tie: on every run the constants the implementation reports (max_encoded_len(), encoded_fixed_size(), CEL markers) for ~125 registry types are compared with the model's formulas inside Coq, and the oracle tries 300 values per type with integers forced to their maxima. The check found defect F2 on the original tree (repaired by a fix: commit).",
          "The tie is by observation of reported constants for the registry types (including derived types with compact / encoded_as / skip / generics), not for every possible user type."),
  "C16": ("§4 C16", "One theorem per impl family: holders, sequences of any container kind and element size, String/bytes, Option/Result/array/tuple lifting, one-tuples, and 'what A produces decodes as B to the corresponding value' (from the round-trip theorem). Tie: every `impl .. EncodeLike<..> for ..` header found in /repo/src is matched against the committed inventory (an unknown header = a declared pair the property is not shown for); ~75 families x 10 element types are used through the trait bound on the implementation (bytes equal, decodes as target), and the bytes are compared with the model's encoding of the target value.",
